@@ -126,9 +126,22 @@ def wire_code(c, names, pair_type):
     if c[0] != "code":
         raise Unsupported("code " + sx_str(c)[:60])
     ins = c[2:]
-    offs = [int(i[0]) for i in ins]
-    index_of = {o: n for n, o in enumerate(offs)}
-    index_of[int(c[1])] = len(ins)
+    # vm.c:325-329: a set! of a global that is still unbound when the code is generated is preceded by GLOBAL-REF x; DROP
+    # (forces the undefined-variable error at run time).  The model AST has no "bound at compile time" bit; the pair is
+    # removed here and the generated programs never assign an unbound global.
+    drop = set()
+    for n in range(len(ins) - 3):
+        a, b, c2, e = ins[n:n + 4]
+        if (a[1] in ("GLOBAL-REF", "GLOBAL-KNOWN-REF") and b[1] == "DROP" and c2[1] == "PUSH" and isinstance(c2[2], list)
+                and c2[2][0] == "cell" and c2[2][1] == a[2] and e[1] == "SET-CDR"):
+            drop |= {n, n + 1}
+    index_of, k = {}, 0
+    for n, i in enumerate(ins):
+        index_of[int(i[0])] = k
+        if n not in drop:
+            k += 1
+    index_of[int(c[1])] = k
+    ins = [i for n, i in enumerate(ins) if n not in drop]
     out = ["code"]
     for n, i in enumerate(ins):
         off, op, args = int(i[0]), i[1], i[2:]
@@ -1459,6 +1472,8 @@ def report_inner(ctx, plan):
             seen[name] = seen.get(name, 0) + 1
             if seen[name] <= 3:
                 ctx.broken(name, reason, **kw)
+                if os.environ.get("VERIF_DEBUG"):
+                    print("BROKEN", name, reason, kw)
     return seen
 
 
